@@ -1,9 +1,118 @@
 (* C02 - identifiers are exactly those of the published E3FP algorithm.  Statements only.
-   The executable model Model/{Geometry,Stereo,E3FP}.v + Base/Murmur3.v IS the independent specification; the
-   theorems below state the structural facts the property names.  (More statements are added as their proofs land.) *)
-From E3FP Require Import Base.Prelude Base.Murmur3 Gen.Constants.
+   The executable model Model/{Geometry,Stereo,E3FP}.v + Base/Murmur3.v IS the independent specification the property
+   asks for (own MurmurHash3, own root-free geometry); it is compared with the implementation on every run.  The theorems
+   below state the structural facts the property names: hashing and the signed->unsigned conversion, the published
+   constants (regenerated from the source on every run), the angle thresholds certified against the real sine/cosine.
+   Proofs: Proofs/HashFacts.v, Proofs/AngleTableCert.v.  Iteration/dedup/termination statements: see the second half. *)
+From Coq Require Import QArith Reals Qreals.
+From E3FP Require Import Base.Prelude Base.ZSet Base.Murmur3 Model.Geometry Model.Stereo Gen.Constants Gen.AngleTable Model.E3FP
+  Proofs.HashFacts Proofs.AngleTableCert.
 Open Scope Z_scope.
 
-Theorem seed_is_published : mmh3_seed = 0.
-Proof. reflexivity. Qed.
-Print Assumptions seed_is_published.
+(* signed_to_unsigned_int on the int32 range: a 32-bit word, congruent to the input, inverse of the signed view, injective *)
+Theorem signed_to_unsigned_spec :
+  forall a, -two31 <= a < two31 ->
+    0 <= unsigned32 a < two32 /\
+    (unsigned32 a - a) mod two32 = 0 /\
+    to_signed32 (unsigned32 a) = a /\
+    forall b, -two31 <= b < two31 -> unsigned32 a = unsigned32 b -> a = b.
+Proof. exact signed_to_unsigned_spec. Qed.
+Print Assumptions signed_to_unsigned_spec.
+Example signed_to_unsigned_nonvacuous : unsigned32 (-1) = 4294967295 /\ unsigned32 (-two31) = two31 /\ unsigned32 5 = 5.
+Proof. vm_compute. repeat split. Qed.
+
+(* hash_int64_array returns an int32 for every seed and array, so the conversion above applies to every identifier *)
+Theorem hash_range : forall seed xs, -two31 <= hash_i64 seed xs < two31.
+Proof. exact hash_range. Qed.
+Print Assumptions hash_range.
+
+Theorem unsigned_hash_injective : forall seed1 xs1 seed2 xs2,
+  unsigned32 (hash_i64 seed1 xs1) = unsigned32 (hash_i64 seed2 xs2) -> hash_i64 seed1 xs1 = hash_i64 seed2 xs2.
+Proof. exact unsigned_hash_injective. Qed.
+Print Assumptions unsigned_hash_injective.
+
+(* the hash reads the array through its little-endian 32-bit words only; entries count modulo 2^64, the seed modulo 2^32;
+   conversely the words determine the array entries modulo 2^64 *)
+Theorem hash_depends_on_words_only :
+  forall seed xs ys, flat_map words_of_i64 xs = flat_map words_of_i64 ys -> hash_i64 seed xs = hash_i64 seed ys.
+Proof. exact hash_depends_on_words_only. Qed.
+Print Assumptions hash_depends_on_words_only.
+
+Theorem hash_int64_wrap :
+  forall seed seed' xs ys, seed mod two32 = seed' mod two32 ->
+    Forall2 (fun x y => x mod two64 = y mod two64) xs ys -> hash_i64 seed xs = hash_i64 seed' ys.
+Proof. exact hash_int64_wrap. Qed.
+Print Assumptions hash_int64_wrap.
+Example hash_int64_wrap_nonvacuous : hash_i64 0 [-1; 7] = hash_i64 two32 [two64 - 1; 7 + two64] /\ hash_i64 0 [-1; 7] <> hash_i64 0 [7; -1].
+Proof. vm_compute. split; [reflexivity | discriminate]. Qed.
+
+Theorem words_determine_array :
+  forall xs ys, flat_map words_of_i64 xs = flat_map words_of_i64 ys -> Forall2 (fun x y => x mod two64 = y mod two64) xs ys.
+Proof. exact words_determine_array. Qed.
+Print Assumptions words_determine_array.
+
+(* BOND_TYPES: None -> 5, SINGLE -> 1, DOUBLE -> 2, TRIPLE -> 3, AROMATIC -> 4, nothing else; distinct codes *)
+Theorem bond_codes_published : forall t, lookup_bond t bond_types_table = bond_code_published t.
+Proof. exact bond_codes_published. Qed.
+Print Assumptions bond_codes_published.
+
+Theorem bond_codes_injective :
+  forall t1 t2 c, lookup_bond t1 bond_types_table = Some c -> lookup_bond t2 bond_types_table = Some c -> t1 = t2.
+Proof. exact bond_codes_injective. Qed.
+Print Assumptions bond_codes_injective.
+
+(* the constants read from the source tree are the published ones (finite facts over Gen/Constants.v, Gen/AngleTable.v):
+   `double_nearest p q y` = y is a binary64 number within half a unit in the last place of p/q *)
+Theorem constants_are_published :
+  mmh3_seed = 0 /\
+  (forall t, lookup_bond t bond_types_table = bond_code_published t) /\ length bond_types_table = 5%nat /\
+  double_nearest 1 10 y_axis_precision = true /\
+  double_nearest 1 100 z_axis_precision = true /\
+  polar_cone_is_pi_over_36 = true /\
+  fprinter_bits = 2 ^ 32 /\
+  ident_dtype_is_int64 = true /\
+  bsize sin2_tree = 157 /\ bflatten sin2_tree = sin2_table /\ length sin2_table = 157%nat /\
+  Forall (fun nd => snd nd = 2 ^ angle_den_bits /\ 0 < fst nd < snd nd) sin2_table /\
+  ssorted (map fst sin2_table) /\
+  snd cos2_cone = 2 ^ angle_den_bits /\ 0 < fst cos2_cone < snd cos2_cone /\
+  fst yprec2 = Qnum y_axis_precision ^ 2 /\ snd yprec2 = Zpos (Qden y_axis_precision) ^ 2 /\
+  e3fp_consts = mksconsts sin2_tree cos2_cone yprec2.
+Proof. exact constants_are_published. Qed.
+Print Assumptions constants_are_published.
+
+(* the tree search of Stereo.bin_of counts the thresholds passed by a downward-closed test ("floor") *)
+Theorem brank_count : forall test t,
+  downclosed test (bflatten t) -> brank test t = Z.of_nat (length (filter test (bflatten t))).
+Proof. exact brank_count. Qed.
+Print Assumptions brank_count.
+
+Theorem bin_of_is_count_Z : forall uy uu yy : Z,
+  0 <= uu * yy ->
+  bin_of ZD e3fp_consts uy uu yy =
+  Z.of_nat (length (filter (fun nd => Z.leb (fst nd * (uu * yy)) (snd nd * (uy * uy))) sin2_table)).
+Proof. exact bin_of_is_count_Z. Qed.
+Print Assumptions bin_of_is_count_Z.
+(* u = (1,1,0), y = (1,0,0): angle to the equatorial plane 45 degrees = 0.785 rad -> bin 78 *)
+Example bin_of_nonvacuous : bin_of ZD e3fp_consts 1 2 1 = 78.
+Proof. vm_compute. reflexivity. Qed.
+
+(* the thresholds are those of the real sine and cosine (Interval; real-number axioms) *)
+Theorem sin2_table_certified : Forall entry_ok (numbering sin2_table 1).
+Proof. exact sin2_table_certified. Qed.
+Print Assumptions sin2_table_certified.
+Theorem sin2_table_entry : forall (k : nat) (n d : Z),
+  nth_error sin2_table k = Some (n, d) ->
+  (Rabs (IZR n / IZR d - (sin (IZR (Z.of_nat k + 1) * Q2R z_axis_precision)) ^ 2) <= / 2 ^ 48)%R.
+Proof. exact sin2_table_entry. Qed.
+Print Assumptions sin2_table_entry.
+Theorem sin2_table_complete :
+  (IZR (Z.of_nat (length sin2_table)) * Q2R z_axis_precision < PI / 2 < (IZR (Z.of_nat (length sin2_table)) + 1) * Q2R z_axis_precision)%R.
+Proof. exact sin2_table_complete. Qed.
+Print Assumptions sin2_table_complete.
+Theorem cos2_cone_certified :
+  (Rabs (IZR (fst cos2_cone) / IZR (snd cos2_cone) - (cos (PI / 36)) ^ 2) <= / 2 ^ 48)%R.
+Proof. exact cos2_cone_certified. Qed.
+Print Assumptions cos2_cone_certified.
+Theorem polar_cone_certified : (Rabs (Q2R polar_cone_rad - PI / 36) <= / 2 ^ 57)%R.
+Proof. exact polar_cone_certified. Qed.
+Print Assumptions polar_cone_certified.
